@@ -11,6 +11,12 @@ class Ctx:
         self.tier = tier
         self.seed = seed
         self.replay = replay
+        if replay:
+            # a replay file names the seed its case index belongs to
+            try:
+                self.seed = int(json.load(open(replay)).get("seed", seed))
+            except (OSError, ValueError):
+                pass
         self.work = os.path.join(chk.WORK, prop)
         os.makedirs(self.work, exist_ok=True)
 
@@ -432,6 +438,44 @@ def c18(ctx):
     return merged
 
 
+def bindir(ctx):
+    """Directory of the real tool binaries built by `build(tools=True)`."""
+    return os.path.join(ctx.chk.TARGET, "release")
+
+
+def tool_leg(ctx):
+    return ctx.chk.merge([ctx.harness(extra=["--bindir", bindir(ctx)])])
+
+
+def oparse_leg(ctx, merged, name):
+    """Second, independent reading of the files/streams the harness recorded (O-PARSE)."""
+    import store_cmp
+    path = os.path.join(ctx.work, name)
+    if not os.path.exists(path):
+        merged["notes"].append("no O-PARSE records were written")
+        return merged
+    n, skipped, found = store_cmp.run_records(path)
+    merged["evaluations"] += n
+    merged["counters"]["oparse_records_compared"] = n
+    merged["counters"]["oparse_records_skipped_ambiguous_sq"] = skipped
+    for key, (count, what, replay) in sorted(found.items()):
+        if "|harness|" in key:
+            # the reference stream itself did not parse: an oracle problem, never a violation
+            merged["inconclusive"] = merged["inconclusive"] or "O-PARSE rejected a reference stream: " + what
+            continue
+        merged["violations"].append({"key": key, "what": what, "replay": replay, "count": count})
+    os.remove(path)
+    return merged
+
+
+def c32(ctx):
+    return oparse_leg(ctx, tool_leg(ctx), "c32_oparse.jsonl")
+
+
+def c33(ctx):
+    return oparse_leg(ctx, tool_leg(ctx), "c33_oparse.jsonl")
+
+
 PROPS = {
     "C01": {"run": simple, "level": "exploration"},
     "C02": {"run": c02, "level": "exploration"},
@@ -479,7 +523,18 @@ PROPS = {
     "C29": {"run": simple, "level": "exploration",
             "assumptions": ["requestor and acceptor run in one process over loopback TCP; timeouts (8 s per socket operation, 20 s per hand-shake) make a scenario inconclusive"]},
     "C31": {"run": simple, "level": "exploration"},
+    "C32": {"run": c32, "level": "exploration", "tools": True,
+            "assumptions": ["loopback TCP on 127.0.0.1 is available; ports are picked by bind(0) and re-used by the tool (lost races are retried)",
+                            "command sets are built with dicom-object and sent in one PDV; only the data set is fragmented",
+                            "the requestor side uses dicom-ul's client association (exercised separately by C28-C30)"]},
+    "C33": {"run": c33, "level": "exploration", "tools": True,
+            "assumptions": ["the recording acceptor is the harness' own PDU-level implementation on top of dicom-ul's read_pdu/write_pdu",
+                            "files are written with FileDicomObject::write_to_file from generated data sets",
+                            "--ignore-sop-class is never passed (it deliberately switches the property off)"]},
     "C34": {"run": simple, "level": "fault_enumeration"},
+    "C35": {"run": tool_leg, "level": "exploration", "tools": True,
+            "assumptions": ["PNG files are written and read back with the `image` crate (also used by the tools)",
+                            "grayscale exports are checked through --unwrap only; plain decoding is checked for RGB, where the library documents that no LUT is applied"]},
     "C36": {"run": simple, "level": "exploration",
             "assumptions": [
                 "titles are non-empty; socket addresses are those whose std text form is itself lossless "
